@@ -38,6 +38,7 @@ func main() {
 		depth = 3
 	}
 	hs := walmc.Histories(walmc.Alphabet(!quick), depth)
+	hs = append(hs, walmc.DeepHistories()...)
 	if *shard != "" {
 		runShard(*shard, hs, quick)
 		return
